@@ -895,6 +895,7 @@ impl Graph {
         //
         // This enables these inputs to be used for in-place operations or
         // returned directly as outputs.
+        let input_ids: SmallVec<[NodeId; 4]> = inputs.iter().map(|(id, _)| *id).collect();
         let mut idx = 0;
         while idx < inputs.len() {
             if matches!(inputs[idx], (_, ValueOrView::Value(_))) {
@@ -1211,12 +1212,20 @@ impl Graph {
             }
 
             // Save outputs for future steps.
+            //
+            // A value supplied by the caller takes precedence over a value
+            // computed by the graph, so outputs for run inputs are discarded.
+            // Inputs passed as owned values live in `temp_values` and must
+            // not be overwritten. For inputs passed as views, a computed
+            // value stored here would be ignored by input lookups, but could
+            // still be taken for in-place execution.
             temp_values.extend(
                 op_node
                     .output_ids()
                     .iter()
                     .zip(outputs)
-                    .filter_map(|(output_id, output)| output_id.map(|id| (id, output))),
+                    .filter_map(|(output_id, output)| output_id.map(|id| (id, output)))
+                    .filter(|(id, _)| !input_ids.contains(id)),
             );
 
             // Remove temporary values that are no longer needed
